@@ -214,3 +214,105 @@ def d12_non_ascii_ipv6_zone(prop, mech, case, info, variant):
         return str(u).replace(zone, "").isascii()
     except Exception:
         return False
+
+
+@finding("D13", ["C03"])
+def d13_colon_in_first_relative_segment(prop, mech, case, info, variant):
+    """Mechanism: a URL without scheme and authority whose first path segment
+    contains ':' (from '%3A' in constructor text, which is decoded because ':' is
+    legal in a path, or from build/with_path text) is rendered as it stands, and
+    RFC 3986 4.2 reads 'a:b' as scheme 'a'.  Input predicate: no scheme, no
+    authority, first raw path segment = ALPHA *scheme-char ':' rest.  Bug model:
+    the re-parsed URL has scheme == that prefix lower-cased and the path lost
+    exactly that prefix."""
+    if mech != "not_fixed_point":
+        return False
+    u = info.get("_url")
+    try:
+        if u.scheme != "" or u.raw_authority != "":
+            return False
+        first = u.raw_path.split("/")[0]
+        prefix, sep, rest = first.partition(":")
+        from .oracles import rfc3986 as rfc
+
+        # yarl (like urllib) also takes a prefix that starts with a digit, '+', '-' or '.' for a scheme (C07 gray zone)
+        if not sep or not prefix or not all(c in rfc.SCHEME_CHARS for c in prefix):
+            return False
+        from yarl import URL
+
+        s = str(u)
+        if not s.startswith(prefix + ":"):
+            return False
+        u2 = URL(s)
+        if u2.scheme != prefix.lower():
+            return False
+        return "scheme" in info.get("fields", [])
+    except Exception:
+        return False
+
+
+def _leaf_ctor(op):
+    while isinstance(op, dict) and "base" in op:
+        op = op["base"]
+    return op if isinstance(op, dict) and op.get("op") == "ctor" else None
+
+
+def _all_ctors(op, out=None):
+    out = [] if out is None else out
+    if isinstance(op, dict):
+        if op.get("op") == "ctor":
+            out.append(op)
+        for k in ("base", "ref"):
+            if k in op:
+                _all_ctors(op[k], out)
+    return out
+
+
+def _degenerate_authority_input(op):
+    """Some URL the op tree obtains from the auto-mode parser (a receiver, or a
+    join reference that may be returned as it is) has an input authority that
+    is non-empty but made only of '@' and ':' (lone surrogates, which quoting
+    drops, ignored)."""
+    return any(_degenerate_ctor(leaf) for leaf in _all_ctors(op))
+
+
+def _degenerate_ctor(leaf):
+    if leaf is None or leaf.get("encoded"):
+        return False
+    from .oracles import rfc3986 as rfc
+
+    _, authority, _, _, _, gray = rfc.split(leaf["s"])
+    if gray and authority is None:
+        # a scheme-like prefix starting with a digit/+/-/. is taken for a scheme by yarl (C07 gray zone)
+        t = rfc.preprocess(leaf["s"])
+        _, authority, _, _, _, _ = rfc.split("x" + t[t.find(":"):])
+    if not authority:
+        return False
+    a = "".join(c for c in authority if not (0xD800 <= ord(c) <= 0xDFFF))
+    return authority != "" and all(c in "@:" for c in a)
+
+
+@finding("D14b", ["C09", "C08"])
+def d14b_degenerate_authority_eager_host(prop, mech, case, info, variant):
+    """Mechanism: the parser normalises an authority with empty userinfo, host
+    and port ('//:', '//@', '//:@' without password...) to an empty netloc but
+    still pre-fills raw_host == '' (pinned by tests/test_url_parsing.py::
+    test_all_empty); any copy derives None from the empty netloc.  Bug model:
+    exactly the four host accessors differ, '' on the parsed object, None on
+    the copy, and the stored netloc is empty."""
+    if mech not in ("eager_lazy_disagree", "history_dependent_outcome"):
+        return False
+    fields = set(info.get("fields", []))
+    if not fields or not fields <= {"raw_host", "host", "host_subcomponent", "host_port_subcomponent"}:
+        return False
+    for k, a, b in info.get("_diff", []):
+        if not (a == "" and b is None):
+            return False
+    op = case.get("op")
+    if op is None or not _degenerate_authority_input(op):
+        return False
+    u = info.get("_url")
+    try:
+        return u is None or u.raw_authority == ""
+    except Exception:
+        return False
